@@ -53,8 +53,9 @@ Definition opform (s : gst) (op : Z) : Prop :=
 (* what the lock owner knows at its program point *)
 Definition pcinv (s : gst) (p : pc) : Prop :=
   match p with
-  | B_call _ | B_incall _ | BC_tail _ | BC_xor _ | W_call _ _ | W_incall _ _ => bmode s = true
-  | W_popb _ => bmode s = true /\ head_bar s
+  | B_call _ | B_incall _ | BC_tail _ | BC_xor _ => bmode s = true
+  | W_call op _ | W_incall op _ => Z.land op ENQ_BITS = ENQUEUED /\ bmode s = true
+  | W_popb op => Z.land op ENQ_BITS = ENQUEUED /\ bmode s = true /\ head_bar s
   | BC_class _ e => bmode s = true /\ (e = 0 \/ e = ENQUEUED)
   | DBW_pop _ e => bmode s = true /\ (e = 0 \/ e = ENQUEUED) /\ head_bar s /\ head_wt s
   | DBW_xfer _ e u _ =>
